@@ -1973,7 +1973,7 @@ def main(tier, seed):
     r = Rng(seed)
     try:
         q = tier == "quick"
-        layer_twin(ck, r, 190 if q else 2400, 30 if q else 40)
+        layer_twin(ck, r, 190 if q else 1800, 30 if q else 40)
         layer_programs(ck, r, 80 if q else 1000, 16 if q else 30)
         layer_script_cache(ck, r)
         layer_refused(ck)
